@@ -28,6 +28,14 @@ pub struct Plan {
     pub assumptions: Vec<&'static str>,
     /// C20: additionally compare per-seed transcripts between two batches of worker processes
     pub cross_process: bool,
+    /// thorough tier only: scenarios of /verif/miri run under Miri's seeded scheduler
+    pub miri: Vec<MiriSpec>,
+}
+
+#[derive(Clone, Debug)]
+pub struct MiriSpec {
+    pub args: Vec<&'static str>,
+    pub seeds: u32,
 }
 
 pub fn engines() -> Vec<Box<dyn Engine>> {
@@ -203,6 +211,33 @@ pub fn replay_main(path: &str, quiet: bool) -> i32 {
     };
     let prop = doc["property"].as_str().unwrap_or("").to_string();
     let eng = engine(doc["engine"].as_str().unwrap_or(""));
+    if let Some(m) = doc.get("miri") {
+        let args: Vec<String> = m["args"].as_array().map(|a| a.iter().filter_map(|x| x.as_str().map(|s| s.to_string())).collect()).unwrap_or_default();
+        let flags = m["flags"].as_str().unwrap_or("").to_string();
+        let out = Command::new("cargo")
+            .arg("+nightly").arg("miri").arg("run").arg("--offline")
+            .arg("--manifest-path").arg(format!("{}/miri/Cargo.toml", VERIF_DIR))
+            .arg("--").args(&args)
+            .env("MIRIFLAGS", &flags).env("CARGO_NET_OFFLINE", "true")
+            .current_dir(format!("{}/miri", VERIF_DIR))
+            .output();
+        return match out {
+            Ok(o) if o.status.success() => {
+                if !quiet { println!("NOT-REPRODUCED property={} (Miri scenario passes on this tree)", prop); }
+                0
+            }
+            Ok(o) => {
+                if !quiet {
+                    let txt = String::from_utf8_lossy(&o.stderr).to_string();
+                    let l: Vec<&str> = txt.lines().filter(|l| l.contains("error") || l.contains("panicked")).take(5).collect();
+                    println!("REPRODUCED property={} oracle=miri detail={}", prop, l.join(" / "));
+                    println!("VIOLATION property={} replay={}", prop, path);
+                }
+                1
+            }
+            Err(_) => 2,
+        };
+    }
     if let Some(sl) = doc.get("slice") {
         // the violation depends on what the same process executed before (process-global state):
         // re-execute the worker's whole slice up to the failing run
@@ -659,7 +694,7 @@ pub fn check_main(prop: &str, tier: &str, plan: &Plan) -> i32 {
         let mut vs = r.violations;
         vs.sort_by_key(|v| v["i"].as_u64().unwrap_or(u64::MAX));
         // workers stop at their own first violation; the lowest run index is the one reported
-        let found_here = !vs.is_empty() || !r.crashes.is_empty();
+        let violations_before = violations.len();
         if let Some(v) = vs.into_iter().next() {
             violations.push((part.engine.to_string(), v));
         }
@@ -669,6 +704,32 @@ pub fn check_main(prop: &str, tier: &str, plan: &Plan) -> i32 {
                 continue;
             }
             let seed = run_seed_for(base, part.engine, part.profile, i);
+            // Which operation was in progress? Re-execute the seed in a child that announces it.
+            let exe0 = std::env::current_exe().expect("current_exe");
+            let probe = Command::new(&exe0)
+                .arg("crashprobe")
+                .arg(part.engine)
+                .arg(part.profile)
+                .arg(seed.to_string())
+                .stderr(Stdio::null())
+                .output();
+            let mut why = why;
+            if let Ok(out) = probe {
+                let txt = String::from_utf8_lossy(&out.stdout).to_string();
+                let finished = txt.lines().any(|l| l.starts_with("E done"));
+                if !finished {
+                    if let Some(last) = txt.lines().rev().find(|l| l.starts_with("P ")) {
+                        let ps: Vec<&str> = last[2..].split(',').map(|s| s.trim()).collect();
+                        if !ps.contains(&prop) {
+                            *foreign
+                                .entry(format!("{}:process-crash", ps.join("+")))
+                                .or_insert(0) += 1;
+                            continue;
+                        }
+                        why = format!("{} while an operation concerning {} was in progress", why, ps.join(", "));
+                    }
+                }
+            }
             let viol = Viol {
                 props: vec![prop.to_string()],
                 oracle: "process-crash".into(),
@@ -684,8 +745,80 @@ pub fn check_main(prop: &str, tier: &str, plan: &Plan) -> i32 {
             "engine": part.engine, "profile": part.profile, "runs": r.runs,
             "wall_s": tp.elapsed().as_secs_f64(),
         }));
-        if found_here {
+        if violations.len() > violations_before {
             break;
+        }
+    }
+    // E5: Miri as a second, hook-free deterministic simulator (thorough tier only)
+    let mut miri_json = vec![];
+    if thorough && violations.is_empty() {
+        for spec in &plan.miri {
+            let tm = Instant::now();
+            let flags = format!(
+                "-Zmiri-disable-isolation -Zmiri-ignore-leaks -Zmiri-tree-borrows -Zmiri-preemption-rate=0.1 -Zmiri-many-seeds=0..{}",
+                spec.seeds
+            );
+            let out = Command::new("cargo")
+                .arg("+nightly")
+                .arg("miri")
+                .arg("run")
+                .arg("--offline")
+                .arg("--manifest-path")
+                .arg(format!("{}/miri/Cargo.toml", VERIF_DIR))
+                .arg("--")
+                .args(&spec.args)
+                .env("MIRIFLAGS", &flags)
+                .env("CARGO_NET_OFFLINE", "true")
+                .current_dir(format!("{}/miri", VERIF_DIR))
+                .output();
+            let (status, txt) = match out {
+                Ok(o) => (
+                    o.status.code(),
+                    format!("{}{}", String::from_utf8_lossy(&o.stdout), String::from_utf8_lossy(&o.stderr)),
+                ),
+                Err(e) => (None, format!("cannot start cargo miri: {}", e)),
+            };
+            let oks = txt.lines().filter(|l| l.trim() == "ok").count();
+            let bad = txt.contains("Undefined Behavior")
+                || txt.contains("panicked at")
+                || txt.contains("Data race detected")
+                || txt.contains("error: the evaluated program");
+            let result = if status == Some(0) && oks as u32 >= spec.seeds.min(1) {
+                "passed"
+            } else if bad {
+                "failed"
+            } else {
+                "unavailable"
+            };
+            miri_json.push(json!({
+                "scenario": spec.args, "seeds": spec.seeds, "completed": oks, "wall_s": tm.elapsed().as_secs_f64(), "result": result,
+                "flags": flags,
+            }));
+            *counters.entry("miri_seeds_completed".into()).or_insert(0) += oks as u64;
+            if result == "failed" {
+                let lines: Vec<&str> = txt
+                    .lines()
+                    .filter(|l| l.contains("error") || l.contains("panicked") || l.contains("Undefined") || l.contains("seed") || l.contains("race"))
+                    .take(12)
+                    .collect();
+                let detail = format!("Miri scenario {:?} failed: {}", spec.args, lines.join(" / "));
+                let dir = format!("{}/replays/{}", VERIF_DIR, prop);
+                let _ = std::fs::create_dir_all(&dir);
+                let path = format!("{}/miri-{}.json", dir, spec.args.join("-"));
+                let doc = json!({
+                    "property": prop, "engine": "miri", "profile": spec.args.join(" "), "seed": 0,
+                    "expect": {"props": [prop], "oracle": "miri", "detail": detail},
+                    "miri": {"args": spec.args, "seeds": spec.seeds, "flags": flags},
+                    "command": format!("cd /verif/miri && MIRIFLAGS=\"{}\" cargo +nightly miri run --offline -- {}", flags, spec.args.join(" ")),
+                });
+                let _ = std::fs::write(&path, serde_json::to_string_pretty(&doc).unwrap());
+                violations.push((
+                    "miri".to_string(),
+                    json!({"i": 0, "seed": 0, "oracle": "miri", "detail": detail, "replay": path, "crash": true}),
+                ));
+            } else if result == "unavailable" {
+                eprintln!("WARNING: Miri scenario {:?} could not be run (exit {:?}); recorded as unavailable", spec.args, status);
+            }
         }
     }
     // verify replays in a fresh process, sort out known findings
@@ -802,6 +935,7 @@ pub fn check_main(prop: &str, tier: &str, plan: &Plan) -> i32 {
             "components": components,
             "stopped_by_wall_clock_cap": capped,
             "known_findings_hit": known_hits,
+            "miri": miri_json,
         },
         "assumptions": plan.assumptions,
         "wall_s": wall,
